@@ -104,6 +104,7 @@ static Verdict run(const Case &c) {
 int main(int argc, char **argv) {
     Args a = parse_args(argc, argv);
     if (!a.replay.empty()) return replay_case(a, run);
+    zygote_start(run);   // before any code under test runs in this process
     Current::install(a.failing);
     Evidence ev;
     ev.rule = "two instances A, B of the core (generated distinct addresses, MTU, wired/Wi-Fi) plus a scripted mapper M: Discover to both, Emits to A whose descriptors point at B or at third stations "
